@@ -14,6 +14,7 @@ def run(ctx):
     ctx.run(OP.who5_in_place_operators)
     ctx.run(OP.tbl19_connectives_and_null)
     ctx.run(OP.tbl20_registry_forwards_null)
+    ctx.run(OP.nul7_reused_null_map_reset_completely)
     return ctx.finish(
         'Static rules: the string dictionary is sorted before indices are assigned (range '
         'predicates run on dictionary indices), a codec op is declared order-/summation-preserving '
